@@ -24,13 +24,71 @@ class _Continue(Exception):
     pass
 
 
+class Scope(dict):
+    """lexical scope: reads fall through to the enclosing scope, assignments update the scope that declares the name"""
+    def __init__(self, parent=None):
+        super().__init__()
+        self.parent = parent
+
+    def __missing__(self, k):
+        if self.parent is not None:
+            return self.parent[k]
+        raise KeyError(k)
+
+    def __contains__(self, k):
+        return dict.__contains__(self, k) or (self.parent is not None and k in self.parent)
+
+    def get(self, k, d=None):
+        return self[k] if k in self else d
+
+    def assign(self, k, v):
+        s = self
+        while s is not None:
+            if dict.__contains__(s, k):
+                dict.__setitem__(s, k, v)
+                return True
+            s = getattr(s, "parent", None)
+        return False
+
+
+def _copyval(v):
+    """values are moved / copied on binding: records must not alias (`self` and `&mut` borrows are passed by reference and never go through here)"""
+    if isinstance(v, dict) and not v.get("__ref"):
+        return {k: _copyval(x) for k, x in v.items()}
+    if isinstance(v, tuple):
+        return tuple(_copyval(x) for x in v)
+    return v
+
+
 class Interp:
-    def __init__(self, ast, file_suffix, extern=None, max_depth=6):
+    def __init__(self, ast, file_suffix, extern=None, max_depth=6, max_steps=200000):
         self.ast = ast
         self.file = file_suffix
         self.extern = extern or {}
         self.max_depth = max_depth
+        self.max_steps = max_steps
         self.steps = 0
+
+    def assign_place(self, lhs, v, env, depth):
+        lhs = strip(lhs)
+        if lhs.k == "unary" and lhs["op"] == "*":
+            lhs = strip(lhs["e"])
+        if lhs.k == "path":
+            if isinstance(env, Scope):
+                if not env.assign(lhs["path"], v):
+                    raise NotPure("assignment to unknown name " + lhs["path"])
+            elif lhs["path"] in env:
+                env[lhs["path"]] = v
+            else:
+                raise NotPure("assignment to unknown name " + lhs["path"])
+            return
+        if lhs.k == "field":
+            b = self.ev(lhs["base"], env, depth)
+            if isinstance(b, dict) and lhs["member"] in b:
+                b[lhs["member"]] = v
+                return
+            raise NotPure("assignment to a field of a non-record: " + up(lhs))
+        raise NotPure("assignment to " + up(lhs))
 
     def call(self, fn, args, depth=0):
         if depth > self.max_depth:
@@ -49,7 +107,7 @@ class Interp:
             return r.v
 
     def block(self, b, env, depth):
-        env = dict(env)
+        env = Scope(env)
         last = None
         for st in b["stmts"]:
             last = None
@@ -57,7 +115,12 @@ class Interp:
                 if st.get("init") is None:
                     raise NotPure("uninitialised let")
                 v = self.ev(st["init"], env, depth)
-                self.bind(st["pat"], v, env)
+                if st.get("else") is not None:
+                    if not self.match_pat(st["pat"], _copyval(v), env):
+                        self.block(st["else"], env, depth)
+                        raise NotPure("let-else block fell through")
+                else:
+                    self.bind(st["pat"], _copyval(v), env)
             elif st.k == "expr_stmt":
                 v = self.ev(st["e"], env, depth)
                 if not st["semi"]:
@@ -114,7 +177,7 @@ class Interp:
 
     def apply_closure(self, c, args, depth=0):
         _, node, cenv = c
-        env = dict(cenv)
+        env = Scope(cenv)
         if len(node["inputs"]) != len(args):
             raise NotPure("closure arity")
         for p, a in zip(node["inputs"], args):
@@ -142,8 +205,19 @@ class Interp:
 
     def ev(self, n, env, depth):
         self.steps += 1
+        if self.steps > self.max_steps:
+            raise NotPure("step budget exceeded")
         n = strip(n)
         k = n.k
+        if k == "assign":
+            self.assign_place(n["l"], _copyval(self.ev(n["r"], env, depth)), env, depth)
+            return None
+        if k == "mcall" and n["method"] in ("take", "replace") and strip(n["recv"]).k in ("field", "path") and len(n["args"]) == (0 if n["method"] == "take" else 1):
+            old = self.ev(n["recv"], env, depth)
+            if old is None or (isinstance(old, tuple) and len(old) == 2 and old[0] == "some"):
+                new = None if n["method"] == "take" else ("some", _copyval(self.ev(n["args"][0], env, depth)))
+                self.assign_place(n["recv"], new, env, depth)
+                return old
         if k == "lit":
             if n["t"] == "int":
                 return int(n["v"].replace("_", ""))
@@ -195,7 +269,7 @@ class Interp:
             c = strip(n["cond"])
             if c.k == "let_expr":
                 v = self.ev(c["e"], env, depth)
-                env2 = dict(env)
+                env2 = Scope(env)
                 if self.match_pat(c["pat"], v, env2):
                     return self.block(n["then"], env2, depth)
                 if n.get("else") is not None:
@@ -296,7 +370,7 @@ class Interp:
         if k == "match":
             v = self.ev(n["scrut"], env, depth)
             for arm in n["arms"]:
-                env2 = dict(env)
+                env2 = Scope(env)
                 if self.match_pat(arm["pat"], v, env2):
                     if arm.get("guard") is not None and not self.ev(arm["guard"], env2, depth):
                         continue
@@ -304,7 +378,7 @@ class Interp:
                     return self.block(b, env2, depth) if b.k == "block" else self.ev(b, env2, depth)
             raise NotPure("no match arm applies")
         if k == "closure":
-            return ("closure", n, dict(env))
+            return ("closure", n, env)
         if k == "ref":
             return self.ev(n["e"], env, depth)
         if k == "macro":
